@@ -24,17 +24,17 @@ def run(ctx, col, tier):
              "only with type_check=False: the property quantifies over any root type", floor=2)
     col.rule("R-TRIM", "re-assembly trims a duplicated branch end point symmetrically: under the "
              "coincidence test one element is dropped, otherwise none -- at the start and at the end",
-             floor=2, exhaustive=True)
+             floor=2, exhaustive=True, shape=True)
     col.rule("R-WRITESET", "smoothers store only to x, y, z, and only to the interior slice 1:-1 "
-             "(end points, radii, ids untouched)", floor=3)
+             "(end points, radii, ids untouched)", floor=3, shape=True)
     col.rule("R-XYZ", "the interpolation calls share abscissae and differ only in the column "
-             "(x, y, z and r are resampled alike)", floor=2)
+             "(x, y, z and r are resampled alike)", floor=2, shape=True)
     col.rule("R-SPACING", "sample count / positions: n = ceil(length / spacing) + 1 equally spaced "
              "arc-length positions from 0 to the total length (end points kept); linear resampler "
-             "uses linspace(0, length, n)", floor=4)
+             "uses linspace(0, length, n)", floor=4, shape=True)
     col.rule("R-ASSEMBLE", "re-assembly numbering: new ids are consecutive positions in the output "
              "list, each node's parent is its predecessor, the first node of a branch hangs on the "
-             "already emitted start node, children continue from the branch's last node", floor=5)
+             "already emitted start node, children continue from the branch's last node", floor=5, shape=True)
     col.rule("R-ARCLEN", "every result of a branch resampler depends on the arc length of the "
              "polyline (def-use closure from the cumulative segment lengths): no return path -- in "
              "particular no shortcut -- is decided by, or built from, anything but positions "
